@@ -190,7 +190,7 @@ func c51GenNext(rt *rapid.T) (c51NextCase, []string) {
 		k.NowOff = -d
 		cls = append(cls, "next:now<notBefore")
 	case 1:
-		k.NowOff = rapid.Int64Range(-3, 3).Draw(rt, "nowAtStart") * 1
+		k.NowOff = time.Duration(rapid.Int64Range(-3, 3).Draw(rt, "nowAtStart"))
 		cls = append(cls, "next:now~notBefore")
 	case 2:
 		k.NowOff = win + time.Duration(rapid.Int64Range(-3, 3).Draw(rt, "nowAtWin"))
